@@ -93,7 +93,35 @@ def setup():
 
 
 def selfcheck(tier, seed):
-    V.log('selfcheck: see DESIGN.md; canaries run inside each check')
+    """Proves the machinery before anything is believed: canaries of every seam
+    on every build that can see them, and a determinism audit of >= 2000 runs
+    per engine (same sampled runs twice: W=1 vs W=16, different processes, the
+    second without ASLR; per-run event-log hashes diffed)."""
+    out = V.fresh_dir(os.path.join(V.VERIF, 'out', 'selfcheck'))
+    report = {}
+    for v in ('asan', 'dbg', 'plain'):
+        sim, _ = V.build(v)
+        report['canaries-' + v] = V.run_canaries(sim, os.path.join(out, 'canary-' + v))
+        V.log('selfcheck: canaries ok on build %s' % v)
+    audits = [('chan', 'asan', 'quick', 331), ('env', 'asan', 'quick', 3),
+              ('env', 'plain', 'quick', 3), ('prim', 'asan', 'quick', 1),
+              ('sched', 'tsi', 'quick', 3)]
+    for engine, variant, t, mod in audits:
+        sim, _ = V.build(variant)
+        n = V.determinism_audit(sim, engine, t, seed,
+                                os.path.join(out, 'det-%s-%s' % (engine, variant)), mod)
+        report['audit-%s-%s' % (engine, variant)] = n
+        V.log('selfcheck: %s/%s deterministic over %d sampled runs' % (engine, variant, n))
+    # The sched canaries (racy static reported, guarded initialiser silent).
+    sim, _ = V.build('tsi')
+    d = V.fresh_dir(os.path.join(out, 'sched-canary'))
+    s = engine_batch(sim, 'sched', 'smoke', seed, d, 0)
+    if s.get('canary_failures'):
+        raise V.MachineryFault('sched canary misbehaved: ' + json.dumps(s['canary_failures']))
+    report['sched-canaries'] = s.get('canaries')
+    V.log('selfcheck: sched canaries ok')
+    json.dump(report, open(os.path.join(out, 'report.json'), 'w'), indent=1)
+    V.log('selfcheck: OK')
     return 0
 
 
